@@ -134,5 +134,14 @@ func deepCases(c *core.Ctx) []srcCase {
 			}
 		}
 	}
+	// wide programs: every construct more than 1024 times in one parse (production blocks), under the parser that has it
+	for _, src := range corpus.WidePrograms(1100) {
+		for _, v := range []string{"7.4", "5.6"} {
+			cs := mkCase(src, parseVer(v), "one statement form 1100 times")
+			cs.Text = clipS(cs.Text, 120)
+			cs.Block = drive.ProdBlock
+			out = append(out, cs)
+		}
+	}
 	return out
 }
